@@ -125,6 +125,39 @@ func TestVerifC02Yamux(t *testing.T) {
 		if ns > 1 {
 			out.Cover("yamux.conns_with_several_streams")
 		}
+		// a reader whose deadline ran out while data piled up in the receive buffer: buffered
+		// bytes are still handed out; the Read that has to send a window update (half the
+		// window consumed) cannot, and returns its bytes together with a timeout; the reader
+		// extends the deadline and reads on.  Everything must arrive exactly once, in order.
+		if i%3 == 0 {
+			x, err := ca.OpenStream(context.Background())
+			if err != nil {
+				t.Fatal(err)
+			}
+			if _, err := x.Write([]byte{0xEE}); err != nil {
+				t.Fatal(err)
+			}
+			y, err := cb.AcceptStream()
+			if err != nil {
+				t.Fatal(err)
+			}
+			one := make([]byte, 1)
+			if _, err := y.Read(one); err != nil || one[0] != 0xEE {
+				t.Fatalf("marker: %v %v", err, one)
+			}
+			x.SetDeadline(time.Now().Add(60 * time.Second))
+			tot := 140000 + r.Intn(100000) // more than half the 256 kB window, less than the window
+			wl := []int{tot}
+			bl := []int{1 + r.Intn(8192), 4096}
+			line := verifh.StreamCaseRetry(5, 200, r.Intn(1<<19), wl, bl, x, x.CloseWrite, y, 50*time.Second,
+				func() {
+					time.Sleep(300 * time.Millisecond) // let the data land in the receive buffer
+					y.SetReadDeadline(time.Now().Add(-time.Second))
+				},
+				func() { y.SetReadDeadline(time.Now().Add(30 * time.Second)) })
+			out.Case(line)
+			out.Cover("yamux.reads_after_expired_deadline")
+		}
 		ca.Close()
 		cb.Close()
 	}
